@@ -187,6 +187,8 @@ class Client:
                     w = s.block(lambda: st.eof or st.rst, op[1], False, False)
                     if st.eof or st.rst:
                         self.eof_at = s.now
+                        # what the server still wrote before it closed, although every request of this client had been answered
+                        self.trailing = bytes(self.buf) + bytes(st.rbuf)
                         self.note("eof")
                     else:
                         self.note("no-eof")
